@@ -41,7 +41,7 @@ BUDGET_S = {"quick": 400, "thorough": 3000}
 
 
 def streams(ctx):
-    return [("invocations", ctx.scale(400, 6000))]
+    return [("invocations", ctx.scale(640, 6000))]
 
 
 def gen_pair(r):
@@ -191,7 +191,8 @@ def run_case(ctx, P, stream, idx):
         m_ = re.search(r"\b%s: [^=\n]+ = ([^,)\n]+)" % re.escape(in_name), inp_src)
         in_value = m_.group(1).strip() if m_ else None
         all_out_names = set(n for n, _, _ in meta["B"]) | set(p_["name"] for p_ in meta["B.m"] + meta["g"])
-        if r.random() < 0.35 and in_name not in all_out_names and in_name != out_name:
+        # (directed more often for function / method targets: there the new default has to find its slot in `defaults`)
+        if r.random() < (0.6 if okind != "B" else 0.3) and in_name not in all_out_names and in_name != out_name:
             # directed: the selected output location already has the input's name
             out_src = re.sub(r"\b%s\b" % re.escape(out_name), in_name, out_src)
             for p_ in meta["B.m"] + meta["g"]:
@@ -214,7 +215,8 @@ def run_case(ctx, P, stream, idx):
             argv += ["--output-param-wrap", wrap]
         cfg = {"input_param": in_param, "output_param": out_param, "eval": evalmode, "wrap": wrap}
         snap0 = fsnap.snapshot(d)
-        env = dict(os.environ, PYTHONPATH=REPO, PYTHONDONTWRITEBYTECODE="1")
+        # (the command runs under its own string-hash seed, as a user's invocation does; the harness under 0)
+        env = dict(os.environ, PYTHONPATH=REPO, PYTHONDONTWRITEBYTECODE="1", PYTHONHASHSEED=str(1 + (idx * 31) % 9973))
         pr = subprocess.run(argv, cwd=d, env=env, stdout=subprocess.PIPE, stderr=subprocess.PIPE, timeout=300)
         P.monitor("sync_properties.run")
         diff = fsnap.diff(snap0, fsnap.snapshot(d))
